@@ -542,6 +542,8 @@ class Receivers:
             t = self.tables[name]
             node = gen_c01.make_node(t["cls"])
             node.endpoint.send = lambda addr, packet: None       # answers go nowhere
+            node.overlay.max_peers = -1      # configuration, not code: the receivers see hundreds of peers in one run and the
+            #                                  max_peers gates (raw discovery handler, on_introduction_request) are not C01's subject
             self.nodes[name] = node
             self.register_targets(node, t)
         return self.nodes[name]
